@@ -1400,7 +1400,25 @@ pub fn check_c20(case: &Case, h: &History, alts: &[History]) -> Vec<Violation> {
                                 ));
                             }
                         }
-                        PromptCmd::Garbage | PromptCmd::Unknown => {}
+                        PromptCmd::Garbage => {
+                            // the statement names what ends the emulator (q, quit, end of input) and
+                            // what advances (n, next): a line that is plainly none of these - empty,
+                            // blank, a word, a number, an instruction - does neither
+                            if last && t.ends_with('\n') && h.panic().is_none() && !h.out_of_fuel() {
+                                if !s.followed && matches!(h.ended(), Some(Event::Exit(_))) {
+                                    v.push(Violation::new(
+                                        "C20:garbage_terminated",
+                                        format!("{:?} at the prompt of instruction #{} ended the emulator; only q, quit and the end of input do", t, s.idx),
+                                    ));
+                                } else if s.followed {
+                                    v.push(Violation::new(
+                                        "C20:garbage_advanced",
+                                        format!("{:?} at the prompt of instruction #{} let execution continue; only n and next do", t, s.idx),
+                                    ));
+                                }
+                            }
+                        }
+                        PromptCmd::Unknown => {}
                     }
                 }
             }
